@@ -637,6 +637,9 @@ class _token_runner:
         parens = 0
         brackets = 0
         braces = 0
+        # The nesting depth of each nested lambda whose parameter list we are inside of: the
+        # commas there separate parameters.
+        lambda_parameter_lists: List[int] = []
 
         for t in self._tokenizer:
             if (
@@ -645,8 +648,19 @@ class _token_runner:
                 and parens == 0
                 and brackets == 0
                 and braces == 0
+                and len(lambda_parameter_lists) == 0
             ):
                 return
+
+            if t.type == tokenize.NAME and t.string == "lambda":
+                lambda_parameter_lists.append(parens + brackets + braces)
+            elif (
+                t.type == tokenize.OP
+                and t.string == ":"
+                and len(lambda_parameter_lists) > 0
+                and lambda_parameter_lists[-1] == parens + brackets + braces
+            ):
+                lambda_parameter_lists.pop()
 
             # Track things that could fool us
             if t.type == tokenize.OP:
